@@ -86,6 +86,7 @@ def harness(args, timeout=600, race=False, env_extra=None, ok_codes=(0,), allow_
     os.close(fd)
     env = dict(os.environ)
     env["VERIF_SEED"] = str(seed())
+    env["VH_BUDGET"] = str(max(30, int(timeout) - 60))
     if env_extra:
         env.update(env_extra)
     rc, out, wall = run([binp] + list(args) + ["-out", resp], timeout=timeout, env=env, cwd=ROOT)
@@ -100,6 +101,15 @@ def harness(args, timeout=600, race=False, env_extra=None, ok_codes=(0,), allow_
             os.unlink(resp)
         except OSError:
             pass
+    if rc == 3 and doc is not None and doc.get("extra", {}).get("budget_exhausted"):
+        # the harness ran out of its time budget: violations it had already observed stand (they are real-code
+        # behaviour); without any, nothing can be concluded
+        real = [v for v in doc.get("violations") or [] if v.get("tag") != "harness"]
+        if not real:
+            raise Inconclusive("harness %s exhausted its time budget (%ss) without a verdict\n%s" % (args[:3], env["VH_BUDGET"], out[-3000:]))
+        doc["_stdout"] = out
+        doc["_wall"] = wall
+        return doc
     if allow_crash and (doc is None or rc not in ok_codes):
         return {"crashed": True, "rc": rc, "_stdout": out, "_wall": wall}
     if doc is None or rc not in ok_codes:
